@@ -11,6 +11,7 @@ CONSTANTS
   Tmo = {0}
   Horizon = 0
   AllowFaults = TRUE
+  OpenGarbage = FALSE
   AdapterErrors = FALSE
   AllowCancel = FALSE
   AllowStall = FALSE
